@@ -14,6 +14,7 @@ import (
 	"sort"
 	"strconv"
 	"strings"
+	"time"
 
 	kerrors "k8s.io/apimachinery/pkg/api/errors"
 	"k8s.io/apimachinery/pkg/runtime/schema"
@@ -175,6 +176,8 @@ type script struct {
 
 type fakeClient struct {
 	api.Client // nil: any other method panics
+	cancel     context.CancelFunc
+	nLists     int // List calls made during the current op
 	s          *state
 	cache      int
 	sc         *script
@@ -189,6 +192,7 @@ func (c *fakeClient) List(ctx context.Context, l model.ListInterface, revision s
 		c.sc.lists = c.sc.lists[1:]
 	}
 	c.s.h.Count("list:" + lo.kind)
+	c.nLists++
 	switch lo.kind {
 	case "nf":
 		// "backing API not installed" is treated by the code as a completed (empty-handed) sync; cached
@@ -200,6 +204,19 @@ func (c *fakeClient) List(ctx context.Context, l model.ListInterface, revision s
 	case "ot":
 		c.s.v.SetRetryElapsed(c.cache, lo.elapsed)
 		return nil, errors.New("list failed")
+	case "poll", "pollE":
+		// An empty List with a zero ("0") or empty revision: the cache reverts to polling.  Make the poll sleep
+		// long and cancel the context, so that the call returns deterministically while the cache is in its polling
+		// steady state (the throttle channel is not ready, only ctx.Done() is).
+		watchersyncer.WatchPollInterval = time.Hour
+		c.cancel()
+		c.lastList = &listOut{kind: "ok"}
+		c.s.listed[c.cache] = true
+		rev := "0"
+		if lo.kind == "pollE" {
+			rev = ""
+		}
+		return &model.KVPairList{Revision: rev}, nil
 	}
 	c.lastList = &lo
 	c.s.listed[c.cache] = true
@@ -303,6 +320,7 @@ type state struct {
 	down       map[int]int // downstream view key -> rev (fold of OnUpdates)
 	lastStatus int
 	expect     []map[int]int // per cache: what its part of the datastore (after conversion) holds
+	staleConverter bool      // the last op made fewer OnSyncerStarting calls than Lists
 	recs       []*recorder   // per cache: the recording wrapper around its update processor (nil in mode 0)
 	since      [][]kvT       // per cache: the last successfully listed snapshot followed by the events processed since
 	listed     []bool
@@ -374,6 +392,8 @@ func (s *state) finish(cache int, rs []watchersyncer.VerifResult) string {
 		resets = s.recs[cache].resets
 		s.recs[cache].resets = 0
 	}
+	// the code's rule: one OnSyncerStarting before every List; fewer means the converter kept stale state
+	s.staleConverter = s.recs[cache] != nil && resets < s.clients[cache].nLists
 	return "R: " + canon(rt) + " C: " + canon(s.cbs) + " N=" + strconv.Itoa(resets)
 }
 
@@ -418,7 +438,7 @@ func exec(h *rt.H, s *state, op string) string {
 			switch f[0] {
 			case "L":
 				switch f[1] {
-				case "nf", "ex":
+				case "nf", "ex", "poll", "pollE":
 					sc.lists = append(sc.lists, listOut{kind: f[1]})
 				case "ot0", "ot1":
 					sc.lists = append(sc.lists, listOut{kind: "ot", elapsed: f[1] == "ot1"})
@@ -438,10 +458,19 @@ func exec(h *rt.H, s *state, op string) string {
 		if sc.fin == nil || i >= s.n {
 			return "bad-op"
 		}
+		for _, lo := range sc.lists {
+			if (lo.kind == "poll" || lo.kind == "pollE") && len(sc.evs) > 0 {
+				return "bad-op" // a call that ends polling has no watch, hence no events
+			}
+		}
 		c := s.clients[i]
-		c.sc, c.lastList = sc, nil
+		c.sc, c.lastList, c.nLists = sc, nil, 0
 		evs := append([]string(nil), sc.evs...)
-		rs := s.v.Call(i)
+		ctx, cancel := context.WithCancel(context.Background())
+		c.cancel = cancel
+		rs := s.v.CallCtx(ctx, i)
+		cancel()
+		watchersyncer.WatchPollInterval = 0
 		out := s.finish(i, rs)
 		// ---- property oracle: convergence to the datastore's current contents, converted by a FRESH processor ----
 		if c.lastList != nil {
@@ -466,6 +495,7 @@ func exec(h *rt.H, s *state, op string) string {
 		if i >= s.n {
 			return "bad-op"
 		}
+		s.clients[i].nLists = 0
 		out := s.finish(i, s.v.StopCache(i))
 		s.expect[i] = map[int]int{}
 		s.since[i] = nil
@@ -530,8 +560,8 @@ func (s *state) checkConverged() {
 	}
 	s.h.Count("oracle:converged-checked")
 	if fmt.Sprint(s.down) != fmt.Sprint(s.expect[0]) {
-		sig := "not-converged"
-		if s.proc >= 2 {
+		sig := "consumer-view-differs-from-datastore"
+		if s.staleConverter {
 			sig = "converter-stale-state"
 		}
 		s.fail(sig, "after a completed list and the watch events that followed, the accumulated update stream differs from the datastore contents after conversion",
@@ -675,6 +705,36 @@ func (g *gen) relist(n int) string {
 	return op
 }
 
+// vanish: a populated List with a real revision and a watch, then a forced full resync (410 on the watch,
+// MaxErrorsPerRevision watch errors, or an expired Watch-create) whose List returns ZERO items with revision
+// "0" or "": everything the cache held has vanished.  The second call is observed in its polling steady state.
+func (g *gen) vanish(n int) []string {
+	i := g.h.Intn(n)
+	a := fmt.Sprintf("call %d F:%s", i, g.list())
+	for j := g.h.Intn(3); j > 0; j-- {
+		a += " E:up:" + g.kv(false)
+	}
+	b := fmt.Sprintf("call %d", i)
+	switch g.h.Intn(4) {
+	case 0:
+		a += " E:ex" // 410 Gone / resource expired on the watch
+	case 1:
+		a += " E:ot E:ot E:ot E:ot E:ot" // MaxErrorsPerRevision
+	case 2:
+		b += " W:ex" // the next Watch-create says the revision is too old
+	default:
+		a += " E:ot"
+		b += " W:ot W:ot W:ot W:ot W:cr1"
+	}
+	for j := g.h.Intn(3); j > 0; j-- {
+		b += rt.Pick(g.h, []string{" L:ex", " L:ot0", " L:ot1", " L:nf"})
+	}
+	b += rt.Pick(g.h, []string{" L:poll", " L:pollE"})
+	g.rev++
+	b += fmt.Sprintf(" F:%d:", g.rev)
+	return []string{a, fmt.Sprintf("dump %d", i), b, fmt.Sprintf("dump %d", i)}
+}
+
 func genCase(h *rt.H) []string {
 	g := &gen{h: h, revs: map[int]int{}}
 	n := rt.Pick(h, []int{1, 1, 1, 2, 3})
@@ -682,6 +742,9 @@ func genCase(h *rt.H) []string {
 	for i := 3 + h.Intn(12); i > 0; i-- {
 		if h.Chance(0.06) {
 			ops = append(ops, fmt.Sprintf("stop %d", h.Intn(n)))
+		} else if h.Chance(0.12) {
+			ops = append(ops, g.vanish(n)...)
+			h.Count("gen:vanish")
 		} else if h.Chance(0.25) {
 			ops = append(ops, g.relist(n))
 			h.Count("gen:relist")
@@ -704,7 +767,7 @@ func main() {
 	watchersyncer.MissingAPIRetryTime = 0
 	h.Rule = "case = one watcherSyncer with 1..3 watcher caches (no UpdateProcessor / a stateless fan-out processor / the REAL stateful conflict-resolving IPPool processor, each behind a recorder of OnSyncerStarting calls; with/without SendDeletesOnConnFail) + ops over " +
 		"{call i script = one resyncAndLoopReadingFromWatcher with scripted List outcomes (ok/notfound/expired/other±timeout), Watch-create outcomes " +
-		"(expired/conn-refused±timeout/not-supported/other) and watch events (add/mod/delete/bookmark/expired/error/unknown), stop i, dump i}; " +
+		"(expired/conn-refused±timeout/not-supported/other), a terminal empty List with revision 0 or \"\" after which the call is observed in its polling steady state, and watch events (add/mod/delete/bookmark/expired/error/unknown), stop i, dump i}; " +
 		"distinct = distinct op sequence; non-trivial = a call that consumed >=1 failing outcome or ended a watch with an error event"
 	run := func(ops []string, tag string) {
 		h.Case(tag)
